@@ -545,7 +545,18 @@ def run_e2e(ctx, ch: Channel, cases=None):
     rows, _, _ = L.registry()
     rng = ctx.rng("opt_e2e")
     n = ctx.scale(400, 8000)
-    cases = cases if cases is not None else [gen_case(rng, rows) for _ in range(n)]
+    if cases is None:
+        # every hostile argument set on the stream with its own defaults (events enabled), once on a template
+        # that lacks the eventTypes/utcMethod features and once on the full one
+        cases = []
+        for args in U.HOSTILE_ARGS:
+            if "drm" in args:
+                continue
+            cases.append({"mode": "vod", "stream": "tears", "manifest": "manifest_h.mpd", "params": dict(args),
+                          "now": NOW})
+            cases.append({"mode": "live", "stream": "tears", "manifest": "hand_made.mpd", "params": dict(args),
+                          "now": NOW})
+        cases += [gen_case(rng, rows) for _ in range(n)]
     all_lines = []
     for case in cases:
         ch.evaluations += 1
